@@ -170,6 +170,7 @@ def run(ctx):
             found=f"{[repr(x.value)[:80] for x in rets]}")
     cmd_rules(ctx)
     dump_options(ctx)
+    generic.sibling_hash_tables(ctx, "C04-D6 digest tables agree with the creator")
     ecdsa_rules(ctx)
     R.rule("C04-D5 sign path executable with installed cbor2", 1, "no in-place mutation of decoded tag content on the sign path")
     frozen.check(ctx, "C04-D5 sign path executable with installed cbor2", ["suit_generator.cmd_sign", SIGN],
